@@ -20,7 +20,7 @@ ID = "C05"
 LEVEL = "model_checking"
 
 NLEAF = 4
-HEADER = "".join(f'''
+HEADER = "from guppylang.std.option import Option, some, nothing\n" + "".join(f'''
 @guppy
 def f{i}(v: int) -> int:
     result("f{i}", v)
@@ -42,6 +42,12 @@ def pg{i}(v: int) -> bool:
 def h2(a: int, b: int) -> int:
     result("h2", a * 10 + b)
     return a - b
+
+@guppy
+def opt(v: int) -> Option[int]:
+    if v > 1:
+        return nothing()
+    return some(v)
 '''
 
 # expression templates use {L} for an int leaf and {B} for a bool leaf slot; numbering is
@@ -129,6 +135,10 @@ def _number(text):
 CONTEXTS_E = [
     ("assign-result", ["r = {X}", 'result("out", r)']),
     ("return-stmt", ['result("out", {X})']),
+    # effects with NO data dependency on a possibly panicking subscript / unwrap next to it
+    ("effects-around-subscript", ['result("before", 1)', "r = array(10, 20)[{X}]", 'result("after", 2)', 'result("out", r)']),
+    ("effects-around-array-write", ["xs = array(10, 20)", 'result("before", 1)', "xs[{X}] = 5", 'result("after", 2)', 'result("a0", xs[0])']),
+    ("effects-around-unwrap", ["o = opt({X})", 'result("before", 1)', "r = o.unwrap()", 'result("after", 2)', 'result("out", r)']),
 ]
 CONTEXTS_B = [
     ("if-cond", ["if {X}:", '    result("then", 1)', "else:", '    result("else", 0)']),
@@ -176,6 +186,12 @@ def programs(tier):
     ]
     for kinds, t in extra_e:
         for cn, lines in CONTEXTS_E:
+            progs.append((kinds + cn, [l.replace("{X}", t) for l in lines]))
+    for kinds, t in [("or,or-chain3,", "({B:g} or {B:g} or {B:g})"), ("and,and-chain3,", "({B:g} and {B:g} and {B:g})"),
+                     ("or,and,mixed-chain3,", "({B:g} or {B:g} and {B:g})"), ("or,and,mixed-chain3,", "({B:g} and {B:g} or {B:g})"),
+                     ("or,or-chain4,", "({B:g} or {B:g} or {B:g} or {B:g})"), ("and,and-chain4,", "({B:g} and {B:g} and {B:g} and {B:g})"),
+                     ("or,not,or-chain3,", "({B:notg} or {B:g} or {B:notg})")]:
+        for cn, lines in CONTEXTS_B:
             progs.append((kinds + cn, [l.replace("{X}", t) for l in lines]))
     progs.append(("compare,ifexp,if-cond", ["if ({L} < ({L} if {B:g} else {L})):", '    result("then", 1)', "else:", '    result("else", 0)']))
     out = []
@@ -227,13 +243,26 @@ class _Oracle(pyoracle.Oracle):
             return r
 
         ns["qubit"], ns["measure"] = qubit, measure
+
+        class _Opt:
+            def __init__(self, has, v=None):
+                self.has, self.v = has, v
+
+            def unwrap(self):
+                if not self.has:
+                    raise pyoracle.Panic("Option.unwrap: value is `Nothing`")
+                return self.v
+
+        ns["some"] = lambda v: _Opt(True, v)
+        ns["nothing"] = lambda: _Opt(False)
+        ns["Option"] = _Opt
         return ns
 
 
 def eval_program(item):
     kinds, lines, nleaf = item
     src = source(lines)
-    res = {"status": "", "dis": None, "execs": 0, "inputs": 0, "undef": 0, "harness": None,
+    res = {"status": "", "dis": None, "dis_all": [], "execs": 0, "inputs": 0, "undef": 0, "harness": None,
            "max_sched": 1, "states": 0, "transitions": 0, "capped": 0}
     o, mod = gload.run_src(src)
     if o.kind == "error":
@@ -274,12 +303,27 @@ def eval_program(item):
                 if len(runs) > 1 and any(_norm(x.events) == want and x.status == st for x in runs):
                     cls = "order-not-enforced"     # some legal schedule deviates from Python's order
                 elif sorted(map(repr, got)) != sorted(map(repr, want)):
-                    cls = "different-effects"       # an effect is duplicated, missing or has another value
+                    # "duplicated-effect": the compiled program's trace is Python's trace plus repeated
+                    # copies of events Python has too (an operand evaluated twice), same final outcome;
+                    # anything else (missing effect, other value, other branch) is "different-effects"
+                    extra = list(got)
+                    for e in want:
+                        if e in extra:
+                            extra.remove(e)
+                        else:
+                            extra = None
+                            break
+                    if extra and r.status == st and all(e in want and e[0] == "result" and e[1][0] in "fgp" for e in extra):
+                        cls = "duplicated-effect"
+                    else:
+                        cls = "different-effects"
                 else:
                     cls = "wrong-order"
-                res["dis"] = {"class": cls, "input": args, "python": [st, want], "guppy": [r.status, got],
-                              "schedules": len(runs), "choices": [c[1] for c in r.choices]}
-                return res
+                if not any(d["class"] == cls for d in res["dis_all"]):
+                    res["dis_all"].append({"class": cls, "input": args, "python": [st, want], "guppy": [r.status, got],
+                                           "schedules": len(runs), "choices": [c[1] for c in r.choices]})
+                break
+    res["dis"] = res["dis_all"][0] if res["dis_all"] else None
     return res
 
 
@@ -299,7 +343,7 @@ def run(ctx):
             rej_titles[r["title"]] = rej_titles.get(r["title"], 0) + 1
             continue
         if r["status"] == "crash":
-            ctx.violation("compiler-crash:" + kinds.split(",")[-2] if "," in kinds else "compiler-crash",
+            ctx.violation("compiler-crash:" + kinds.split(",")[-1],
                           f"compiler crashed: {r['dis']['detail']} on " + " | ".join(lines), {"lines": lines, "n": n})
             continue
         acc += 1
@@ -312,8 +356,7 @@ def run(ctx):
         if r["max_sched"] > 1:
             multi += 1
         max_sched = max(max_sched, r["max_sched"])
-        if r["dis"]:
-            d = r["dis"]
+        for d in r["dis_all"]:
             ks = [k for k in kinds.split(",") if k]
             # defect class = the outermost constructs involved + the kind of disagreement
             key = f"{d['class']}:{'+'.join(sorted(set(ks)))}"
